@@ -34,9 +34,11 @@ type Program struct {
 	SSA     *ssa.Program
 	SSAPkgs map[*types.Package]*ssa.Package
 	cg      *callgraph.Graph
-	decls   map[*types.Func]*ast.FuncDecl
-	declPkg map[*types.Func]*packages.Package
-	files   map[*ast.File]*packages.Package
+	// Fallback resolves a function name that no longer exists (see rules/anchors.go)
+	Fallback func(rel, name string) *types.Func
+	decls    map[*types.Func]*ast.FuncDecl
+	declPkg  map[*types.Func]*packages.Package
+	files    map[*ast.File]*packages.Package
 }
 
 // RepoDir is the directory analysed; VERIF_REPO overrides it (used only to run
@@ -176,6 +178,20 @@ func FuncName(f *types.Func) string {
 	if f == nil {
 		return "<nil>"
 	}
+	if n, ok := Canon[f.Origin()]; ok {
+		return n
+	}
+	return rawFuncName(f)
+}
+
+// Canon maps a function that was renamed since the pinned tree to the name it had there (filled by the rules
+// package from reference/anchors.json): obligation keys, exception tables and known findings are keyed by that name.
+var Canon = map[*types.Func]string{}
+
+// RawFuncName is FuncName without the rename map.
+func RawFuncName(f *types.Func) string { return rawFuncName(f) }
+
+func rawFuncName(f *types.Func) string {
 	pk := ""
 	if f.Pkg() != nil {
 		pk = strings.TrimPrefix(f.Pkg().Path(), ModulePath+"/")
@@ -198,8 +214,19 @@ func FuncName(f *types.Func) string {
 	return pk + "." + f.Name()
 }
 
-// LookupFunc finds a package-level function or a method by "pkgrel.Name" / "pkgrel.Type.Method".
+// LookupFunc finds a package-level function or a method by "pkgrel.Name" / "pkgrel.Type.Method". When the name is
+// gone (a rename), Fallback -- if set -- may resolve it by the function's fingerprint on the pinned tree.
 func (p *Program) LookupFunc(rel, name string) *types.Func {
+	if f := p.lookupFunc(rel, name); f != nil {
+		return f
+	}
+	if p.Fallback != nil {
+		return p.Fallback(rel, name)
+	}
+	return nil
+}
+
+func (p *Program) lookupFunc(rel, name string) *types.Func {
 	pk := p.Pkg(rel)
 	if pk == nil {
 		return nil
